@@ -56,7 +56,11 @@ def judge(src, result, settings):
     from pyanalyze.error_code import ErrorCode
 
     registered = {e.name for e in ErrorCode}
-    lines = src.splitlines()
+    # lines as the tokenizer numbers them (and as node_visitor._split_lines does since /repo 4b967d1):
+    # only \n, \r\n and \r end a line -- str.splitlines() would also split at form feeds etc.
+    lines = re.split(r"\r\n|\r|\n", src)
+    if lines and lines[-1] == "":
+        lines.pop()
     problems = []
     codes = {}
     for f in result:
